@@ -9,6 +9,7 @@ LEVEL = "exploration"
 SHARDS = {"quick": 8, "thorough": 16}
 TIMEOUT = {"quick": 900, "thorough": 7200}
 REQUIRED = {"push_len": 1500, "opcode": 170, "script_roundtrip": 250, "parse_diff": 20000, "varint": 300}
+ANCHORS = ['script:Script.parse', 'script:Script.raw_serialize', 'script:Script.serialize', 'helper:read_varint', 'helper:encode_varint']
 RULE = ("every element length 0..521 (exhaustive) x 3 byte patterns; every non-push opcode byte (0x00, 0x4e..0xff, exhaustive); "
         "random multi-element scripts; EVERY prefix of every generated serialisation, single-byte corruptions and random byte "
         "strings as a differential against a strict parser; varints at and around 0xfc/0xfd/0xffff/0x10000/0xffffffff/2^32/"
